@@ -160,6 +160,31 @@ def linkExt (ms : List Mdl) (e : ExtVar) : ExtVar :=
   | some a => { e with a := a }
   | none => e
 
+/-! ### Borrowed index fields (`ExtParam` through a group, `DataSelect`) -/
+
+/-- what storing a value into `np.zeros(n)` does to an idx: numbers stay, a string goes through `float()`
+(a digit string becomes that number, anything else raises `ValueError`) -/
+def coerceNum : Idx → Option Idx
+  | .num k => some (.num k)
+  | .str s => s.toInt?.map Idx.num
+
+/-- `Group.get(src, idx, 'v')` on an idx-valued parameter (how `ExtParam.link_external` borrows e.g. `syn` of an
+exciter): the container is typed by the FIRST value — a string gives a Python list that takes anything, a number
+gives a float array into which later strings are coerced (`none` = `ValueError`) -/
+def groupGetIdxVals (vals : List Idx) : Option (List Idx) :=
+  match vals with
+  | [] => some []
+  | .str _ :: _ => some vals
+  | .num _ :: _ => vals.mapM coerceNum
+
+/-- `DataSelect.v` on index fields: the optional value when given, else the fallback; `np.isnan` is applied to
+every given optional value (`none` = `TypeError` on a string) -/
+def dataSelect (opt fallback : List (Option Idx)) : Option (List (Option Idx)) :=
+  (opt.zip fallback).mapM (fun p => match p.1 with
+    | none => some p.2
+    | some (.num k) => some (some (.num k))
+    | some (.str _) => none)
+
 /-! ### Phase 2 : external variables;  Phase 3 : RHS addresses of external variables, `flags.address` -/
 
 /-- link external variable number `ei` of model number `mi` against the CURRENT state of all models -/
